@@ -89,3 +89,10 @@ check(
     "Explicit setters and class-level configuration are not operations on operands; result/operand aliasing is not flagged; no NaN in pools.",
     "4/C13",
 )
+check(
+    "C14",
+    "runtime monitoring: registration histories (bounded-exhaustive over a fixed alphabet of concrete calls + random) executed on fresh real UnitDatabases and compared step by step with an executable reference model of the documented registration rules; well-formedness invariants evaluated through the public getters after every step; snapshot equality across rejected calls; exhaustive invariant sweep of the shipped databases",
+    "Held for every sequence up to depth 3 (thorough 4) over 29 concrete calls (duplicates, second bases, overrides, from_category, legacy spellings, limits, invalid arguments, categories named like another quantity type) and thousands of random 5-25 call histories: accept/reject, unit order, default unit/value, limits and valid units as the model predicts; I1 one type per unit, I2 identity base first, I3 category units drawn from the type and default value inside limits, I4 valid Scalars for every category/unit, I5 rejected calls change nothing; I1-I4 for all units/categories of the three shipped databases.",
+    "Units are never registered under a legacy spelling; a type without any base is legal and only counted; captions, exception classes and the valid-unit fallback are not modelled.",
+    "4/C14",
+)
